@@ -572,6 +572,62 @@ func c06Work(w *h.W) {
 			c06Emit(w, e, &c06Case{Ops: tb}, t, "writeq")
 		}
 	}
+	// (3c) priority neighbours: o1 at a priority next to (or equal to) that of o2 and of the built-in operators =, ^, -,
+	// and ',': whether an operand needs brackets hinges on one priority being below or merely not above the other,
+	// for the writer and for the reader alike. All terms of depth 2 over these functors.
+	{
+		nspecs := specs
+		if !w.Thorough() {
+			nspecs = []string{"xfx", "xfy", "yfx", "fy", "fx", "xf"}
+		}
+		var ntables [][]string
+		for _, p1 := range []int{199, 200, 201, 499, 500, 501, 699, 700, 701, 999, 1000, 1001} {
+			for _, s1 := range specs {
+				a := fmt.Sprintf("op(%d, %s, o1)", p1, s1)
+				ntables = append(ntables, []string{a})
+				if p1%100 == 0 || w.Thorough() {
+					for _, dq := range []int{-1, 0, 1} {
+						for _, s2 := range nspecs {
+							ntables = append(ntables, []string{a, fmt.Sprintf("op(%d, %s, o2)", p1+dq, s2)})
+						}
+					}
+				}
+			}
+		}
+		fs := []string{"o1", "o2", "=", "^", "-", ","}
+		lv := []ref.Term{ref.Atom("a"), ref.Int(1)}
+		var inner []ref.Term
+		for _, f := range fs {
+			inner = append(inner, ref.C(f, lv[0], lv[1]))
+			if f != "," && f != "=" && f != "^" {
+				inner = append(inner, ref.C(f, lv[0]))
+			}
+		}
+		var nts []ref.Term
+		for _, f := range fs {
+			for _, x := range inner {
+				nts = append(nts, ref.C(f, x, ref.Atom("c")), ref.C(f, ref.Atom("c"), x))
+				if f != "," && f != "=" && f != "^" {
+					nts = append(nts, ref.C(f, x))
+				}
+			}
+		}
+		for _, tb := range ntables {
+			if !w.Mine() {
+				continue
+			}
+			if w.Expired() {
+				return
+			}
+			e, err := c06New("", tb)
+			if err != nil {
+				continue // not a reachable table (an infix and a postfix operator of one name)
+			}
+			for _, t := range nts {
+				c06Emit(w, e, &c06Case{Ops: tb}, t, "writeq")
+			}
+		}
+	}
 	// (3b) token adjacency: operator names that can fuse with a neighbouring token (a digit string, a
 	// float, a quote, a comment opener, another symbol) x all specifiers x leaves of every token class
 	adjNames := []string{"e1", "e", "x1", "b1", "o7", "a", "é", "/*", "*", "-", "'", "0", "[]", "{}", "|", "E", "\x00"} // the last: the atom whose internal value is 0
@@ -743,7 +799,7 @@ func c06Replay(b []byte) (string, string, bool) {
 func init() {
 	h.Register(&h.Check{
 		ID: "C06",
-		Rule: "(1) every leaf of a 71-element set (atoms of every lexical class: solo, graphic, alphanumeric, quoted with escapes, empty, control characters, non-ASCII letters and symbols, names of operators, exponent-like names; integers incl. min/max; floats incl. denormal, max, -0.0; variables) and every depth-1 term that puts such a leaf into every operand position of every prefix and infix operator of the default table, f/1..3, lists, partial lists, {}/1, '{}'/2, '[]'/1, nested minus, under each double_quotes flag and each of writeq, write_canonical, write_term quoted, quoted+ignore_ops; (2) depth 2: every constructor around every depth-1 term over a reduced leaf set, in each operand position; (3) operator tables reached by op/3 on o1, o2 and '-' (7 specifiers x 3 priorities, singly and in pairs): all terms of depth <= 2 over {o1, o2, -, a, 1, -1} with functors o1, o2, - of arity 1 and 2; (3b) token adjacency: each of 17 operator names that can fuse with a neighbouring token (e1, e, x1, b1, o7, a, a non-ASCII letter, /*, *, -, a quote, 0, [], {}, |, E, NUL) x 7 specifiers x 2 priorities x 25 leaves of every token class (incl. comma and :- terms as arguments) (integers, floats with and without exponent, atoms of every class, a variable, compound, list, {}, negative numbers vs. -(1)) in every operand position, nested, under minus, as argument and list element; and one atom per Unicode general category alone and next to letters (1); (4) number_codes/number_chars there and back for the integer boundary grid and a float grid of every (8th) binade x 64 mantissa patterns x sign plus the neighbours of every power of ten; (5) representations: every list of <= 3 (4) elements over 8 values (incl. a non-ASCII character and its code) built through each of the 16 construction recipes of C02 (bracket, bar, partial then bound, './2', atom_chars/atom_codes output, double-quoted literal, append/3 in three modes, findall/3, length/2 + unification, ...) bare and in 8 contexts, through three writers. Distinct = (term, writer, flag).",
+		Rule: "(1) every leaf of a 71-element set (atoms of every lexical class: solo, graphic, alphanumeric, quoted with escapes, empty, control characters, non-ASCII letters and symbols, names of operators, exponent-like names; integers incl. min/max; floats incl. denormal, max, -0.0; variables) and every depth-1 term that puts such a leaf into every operand position of every prefix and infix operator of the default table, f/1..3, lists, partial lists, {}/1, '{}'/2, '[]'/1, nested minus, under each double_quotes flag and each of writeq, write_canonical, write_term quoted, quoted+ignore_ops; (2) depth 2: every constructor around every depth-1 term over a reduced leaf set, in each operand position; (3) operator tables reached by op/3 on o1, o2 and '-' (7 specifiers x 3 priorities, singly and in pairs): all terms of depth <= 2 over {o1, o2, -, a, 1, -1} with functors o1, o2, - of arity 1 and 2; (3c) priority neighbours: o1 at 12 priorities next to and equal to those of the built-in operators (199..201, 499..501, 699..701, 999..1001) x 7 specifiers, alone and with o2 one below, at and one above it (x 6 (7) specifiers): all terms of depth 2 over o1, o2, =, ^, -, ',' in prefix, infix and postfix use; (3b) token adjacency: each of 17 operator names that can fuse with a neighbouring token (e1, e, x1, b1, o7, a, a non-ASCII letter, /*, *, -, a quote, 0, [], {}, |, E, NUL) x 7 specifiers x 2 priorities x 25 leaves of every token class (incl. comma and :- terms as arguments) (integers, floats with and without exponent, atoms of every class, a variable, compound, list, {}, negative numbers vs. -(1)) in every operand position, nested, under minus, as argument and list element; and one atom per Unicode general category alone and next to letters (1); (4) number_codes/number_chars there and back for the integer boundary grid and a float grid of every (8th) binade x 64 mantissa patterns x sign plus the neighbours of every power of ten; (5) representations: every list of <= 3 (4) elements over 8 values (incl. a non-ASCII character and its code) built through each of the 16 construction recipes of C02 (bracket, bar, partial then bound, './2', atom_chars/atom_codes output, double-quoted literal, append/3 in three modes, findall/3, length/2 + unification, ...) bare and in 8 contexts, through three writers. Distinct = (term, writer, flag).",
 		Explanation: "state = a term built WITHOUT the reader (atom_codes/2 with placeholder code lists, =../2); transition = write with the real writer, then read the text + ' .' with read_term/2 under the same table and flags; the term read must equal the term written up to variable renaming, floats by bit pattern; structural capture on both sides",
 		Assumptions: []string{"'$VAR'(N) terms are excluded as the property states", "terms are built through atom_codes/2, =../2 and placeholders, which C15/C16 check separately"},
 		Work:        c06Work,
